@@ -112,7 +112,6 @@ vh::Outcome run_c16(const vh::Case& c, bool concurrent, bool locked_class) {
                         if (X.destroys_in_flight > 0) overlapped = true;
                         bool timed_out = vrt::me().timed_failures != tf0;
                         if (timed_out) X.lbl_timeout = true;
-                        if (r == static_cast<size_t>(-1) && !timed_out && locked_class) vrt::fail("spurious-minus-one", "destroyObjects returned -1 although no lock attempt timed out");
                         if (!overlapped && !timed_out && !faults) {
                             for (Info16* in : must) {
                                 if (in->destroyed != 1) vrt::fail("not-destroyed", "destroyObjects left an object that had no other owner when the call began");
